@@ -285,6 +285,8 @@ def replay_once(bins, path, workdir, tier, known_path, timeout=120):
     if r.returncode == 0 and "REPLAY-OK" in out:
         return "ok", None, "", out
     sig = sanitizer_signature(bins["pid"], out)
+    if "VerifStepLimit" in out:
+        sig = "%s:step-budget-exceeded:hard-stop" % bins["pid"]
     if sig is None:
         sig = "%s:crash:exit%d" % (bins["pid"], r.returncode)
     msg = ""
